@@ -1269,3 +1269,92 @@ Section QueryProofs.
     apply (merge_query_superset e c st1 st2 pre q (merges_wf _ _ Hwf H) Hm).
   Qed.
 End QueryProofs.
+
+(* ------------------------------------------------------------------ *)
+(* statements in the form used by Properties/C11.v and C12.v            *)
+
+Lemma plan_blocks_groups_ok c porder bs : Forall (bgroup_ok c) (plan_blocks c porder bs).
+Proof.
+  unfold plan_blocks. apply Forall_forall. intros g Hg. apply in_flat_map in Hg as [p [_ Hg]].
+  destruct (plan_partition_spec c (filter (fun b => str_eqb (b_part b) p) bs)) as [_ F].
+  rewrite Forall_forall in F. auto.
+Qed.
+
+Lemma plan_blocks_limits c porder bs g :
+  In g (plan_blocks c porder bs) -> (2 <= length g)%nat ->
+  blocks_rows g <= c_max_rows c /\ blocks_usize g <= c_max_bytes c /\
+  forall x y, In x g -> In y g ->
+    b_part x = b_part y /\ Permutation (map fst (b_minmax x)) (map fst (b_minmax y)).
+Proof.
+  intros Hg H2. pose proof (plan_blocks_groups_ok c porder bs) as F. rewrite Forall_forall in F.
+  destruct (F g Hg) as [_ [Hk Hl]]. destruct (Hl H2) as [L1 L2]. split; [exact L1|]. split; [exact L2|].
+  intros x y Hx Hy. apply merge_key_iff. apply Hk; assumption.
+Qed.
+
+Lemma plan_blocks_partition c porder bs :
+  NoDup porder -> (forall b, In b bs -> In (b_part b) porder) ->
+  Permutation (concat (plan_blocks c porder bs)) bs.
+Proof. intros Hn Hc. apply plan_blocks_spec; assumption. Qed.
+
+Lemma plan_files_limits c files :
+  let groups := plan_files c files in
+  Z.of_nat (length (concat groups)) <= Z.max 0 (c_max_files c) /\
+  Forall (fun g => (2 <= length g)%nat /\ files_size g <= c_max_file_size c) groups /\
+  exists leftover, Permutation (concat groups ++ leftover) files.
+Proof. destruct (plan_files_spec c files) as [A [B C]]. auto. Qed.
+
+Lemma plan_files_any_order c files sorted :
+  Permutation sorted files ->
+  let groups := plan_files_ord c sorted in
+  Z.of_nat (length (concat groups)) <= Z.max 0 (c_max_files c) /\
+  Forall (fun g => (2 <= length g)%nat /\ files_size g <= c_max_file_size c) groups /\
+  exists leftover, Permutation (concat groups ++ leftover) files.
+Proof.
+  intro Hp. destruct (plan_files_ord_spec c sorted) as [[lo A] [B C]]. split; [exact C|]. split; [exact B|].
+  exists lo. rewrite A. exact Hp.
+Qed.
+
+Lemma plan_files_disjoint c files :
+  NoDup (map f_ptr files) -> NoDup (map f_ptr (concat (plan_files c files))).
+Proof.
+  intro Hn. destruct (plan_files_spec c files) as [[lo A] _]. eapply groups_nodup; eauto.
+Qed.
+
+Lemma merge_rows_covered e c st st' f b r :
+  store_wf st -> merge_ok e c st st' -> In f st' -> In b (f_blocks f) -> In r (b_rows b) ->
+  b_part b = mr_part r /\ (forall k lo hi, In (k, (lo, hi)) (mr_vals r) -> mm_covers (b_minmax b) k lo hi).
+Proof. intros Hwf Hm. apply store_wf_rows. eapply merge_store_wf; eauto. Qed.
+
+(* the premises about filters and the row matcher, packaged (they are what C01/C02 establish) *)
+Definition filter_facts (Q : Type) (row_sat : Q -> mrow -> bool) (guard : Q -> (str -> bool) -> bool)
+  (ftest : Z -> list str -> str -> bool) : Prop :=
+  (forall p E x, In x E -> ftest p E x = true) /\
+  (forall q (m1 m2 : str -> bool), (forall x, m1 x = true -> m2 x = true) -> guard q m1 = true -> guard q m2 = true) /\
+  (forall q r, row_sat q r = true -> guard q (fun x => mem_str x (mr_ents r)) = true).
+
+Lemma ff_merge_query_eq Q row_sat guard ftest : filter_facts Q row_sat guard ftest ->
+  forall e c st st' q, store_wf st -> merge_ok e c st st' ->
+  Permutation (run_query Q row_sat guard ftest None q st') (run_query Q row_sat guard ftest None q st).
+Proof. intros [A [B C]]. apply merge_query_eq; assumption. Qed.
+
+Lemma ff_merge_query_superset Q row_sat guard ftest : filter_facts Q row_sat guard ftest ->
+  forall e c st st' pre q, store_wf st -> merge_ok e c st st' ->
+  msub (run_query Q row_sat guard ftest pre q st) (run_query Q row_sat guard ftest pre q st').
+Proof. intros [A [B C]]. apply merge_query_superset; assumption. Qed.
+
+Lemma ff_merges_query_eq Q row_sat guard ftest : filter_facts Q row_sat guard ftest ->
+  forall st st' q, store_wf st -> merges st st' ->
+  Permutation (run_query Q row_sat guard ftest None q st') (run_query Q row_sat guard ftest None q st).
+Proof. intros [A [B C]]. apply merges_query_eq; assumption. Qed.
+
+Lemma ff_merges_query_superset Q row_sat guard ftest : filter_facts Q row_sat guard ftest ->
+  forall st st' pre q, store_wf st -> merges st st' ->
+  msub (run_query Q row_sat guard ftest pre q st) (run_query Q row_sat guard ftest pre q st').
+Proof. intros [A [B C]]. apply merges_query_superset; assumption. Qed.
+
+Lemma merged_prefilter_monotone c e g b pre :
+  bgroup_ok c g -> (forall x, In x g -> block_wf x) -> In b g ->
+  block_passes pre (b_meta b) = true -> block_passes pre (b_meta (merged_block e g)) = true.
+Proof.
+  intros Hg Hwf Hb. apply block_passes_mono; [apply (Hwf b Hb)|eapply merged_meta_le; eauto].
+Qed.
